@@ -5,15 +5,16 @@ from nvlib import (Worker, WorkerCrash, WorkerTimeout, Stats, Violation, shard_s
 PROP = "C15"
 RULE = ("for each of the 15 simulated CPUs (19 cpu_list entries share them): leading opcode patterns (8-bit CPUs: all "
         "256 first bytes x all second bytes sampled; 16/32-bit CPUs: quick every 16th, thorough all 65,536 leading "
-        "half words, for 32-bit CPUs both the upper and the lower half word) x operand bytes (zero / 0xff / keyed "
+        "half words, for 32-bit CPUs both the upper and the lower half word; in both tiers also 4 patterns per mnemonic the "
+        "disassembler produces over the 65,536 leading patterns, twice) x operand bytes (zero / 0xff / keyed "
         "random fill) x register states (set through set_reg by name, values from {0,1,0x7f,0x80,0xff,0x7fff,0x8000,"
         "0xffff,...} masked to the register width, SP at 0 / 1 / top) x PC at 0, mid and the top of the address "
         "space; one `step` (enable_step_mode + run(-1,1), alternately with show on/off) on a fresh simulator inside "
         "the sanitized harness, every case executed twice in one child process in different order. Oracle: the step "
         "returns (no sanitizer report, signal, hang or exit()), no memory page or changed byte outside the simulated "
         "address space, both executions give the same return value, get_reg values, dump_registers text and memory "
-        "diff; for 6502/65816 (which advance with the disassembler's length) PC' == PC + disassembled length for "
-        "non control-flow instructions. non-trivial = step that returned 0 and changed a register or memory; "
+        "diff; for 6502/65816/z80 (which advance with the disassembler's length) PC' == PC + disassembled length for "
+        "non control-flow instructions that end at or below 0xffff, did not store into their own bytes and did execute (PC at the very top of the space included). non-trivial = step that returned 0 and changed a register or memory; "
         "distinct key = (cpu, leading pattern)")
 ASSUMPTIONS = ["register values are masked to the architectural width of the register before set_reg (out-of-width values typed by a user are C17's domain)",
                "address spaces: 64 KiB for the 16-bit address CPUs, 16 MiB for 65816/stm8, 128 KiB for lc3/f100_l (16-bit word addresses), unlimited for mips/riscv/ebpf/avr8/tms1000"]
@@ -42,7 +43,8 @@ CFG = {
 }
 BOUND = [0, 1, 2, 0x7f, 0x80, 0xff, 0x100, 0x7fff, 0x8000, 0xffff, 0xfffe, 0x7fffffff, 0x80000000, 0xffffffff, 0xfffffffc,
          0xfffffffe, 0x10000, 0xffff0000]
-CONTROL = re.compile(r"^\s*(j|b|rt|call|ret|brk|cop|wai|stp|per)", re.I)
+CONTROL = re.compile(r"^\s*(j|b|rt|call|ret|brk|cop|wai|stp|per|djnz|rst|halt|stop|ld[id]r|cp[id]r|in[id]r|ot[id]r|mvn|mvp)", re.I)
+PCLEN = {"6502": 0xffff, "65816": 0xffff, "z80": 0xffff}      # simulators that advance by the disassembler's length
 
 
 class Known:
@@ -170,6 +172,31 @@ def crash_detail(w, errpos):
         return ""
 
 
+_MNEMO = {}
+
+
+def mnemonic_patterns(w, cpu, cfg, endian):
+    """for 16/32-bit opcode CPUs: a few leading patterns per mnemonic the disassembler knows, so that every
+    instruction is stepped at least once even when the stride sample of the quick tier skips its encodings"""
+    if cpu in _MNEMO:
+        return _MNEMO[cpu]
+    out = []
+    try:
+        r = w.call({"cmd": "mnemonics", "cpu": cpu, "per": "3", "swap16": "1" if endian == 0 else "0"})
+        half = 0
+        if cfg["unit"] >= 4:
+            half = 1 if endian == 0 else 0          # the first two bytes in memory are the low half word when little endian
+        for line in r.get("mnemonics", b"").decode("latin-1").split("\n"):
+            if "\t" in line:
+                for p in line.split("\t")[1].split(","):
+                    if p:
+                        out.append((int(p), half))
+    except (WorkerCrash, WorkerTimeout):
+        pass
+    _MNEMO[cpu] = sorted(set(out))
+    return _MNEMO[cpu]
+
+
 def patterns_for(cpu, cfg, tier, rnd):
     unit = cfg["unit"]
     if unit == 1:
@@ -186,10 +213,50 @@ def patterns_for(cpu, cfg, tier, rnd):
     return [(p, h) for h in halves for p in range(off, 0x10000, step)] * reps
 
 
+def pc_mismatch(cpu, c, a, s=None):
+    """6502 / 65816 / z80 advance by the disassembler's length: after a step that is not a control transfer the
+    program counter must be the address of the next disassembled instruction.  Not judged: instructions that end beyond
+    0xffff (wrap of the program counter) and steps that stored into their own bytes (the length is then taken from the
+    modified memory)."""
+    if cpu not in PCLEN or a["ret"] != 0:
+        return None
+    md = re.search(r"#DIS (-?\d+) ([^\n]*)", a["text"])
+    if not md or int(md.group(1)) <= 0 or CONTROL.match(md.group(2)) or "???" in md.group(2):
+        return None
+    ln = int(md.group(1))
+    if c["pc"] + ln > PCLEN[cpu]:
+        return None
+    if any(c["pc"] <= x < c["pc"] + ln for x in a["diffs"]) or a["ndiff"] > 256:
+        if s is not None:
+            s.count("pc_vs_disassembler.self_modifying_skipped")
+        return None
+    want = c["pc"] + ln
+    got = a["regs"][-1] & PCLEN[cpu]
+    if got == c["pc"] and not a["diffs"]:
+        # the step ended as a break / unimplemented opcode without executing (run() does not tell these apart from a
+        # completed step): the program counter legitimately stays on the instruction
+        if s is not None:
+            s.count("pc_vs_disassembler.not_executed_skipped")
+        return None
+    if s is not None:
+        s.count("pc_vs_disassembler.%s" % cpu)
+        if want == PCLEN[cpu]:
+            s.count("pc_vs_disassembler.ends_at_top_of_space")
+    if got != want:
+        return ("after '%s' at 0x%x (disassembler length %d) the program counter is 0x%x, the next disassembled "
+                "instruction is at 0x%x" % (md.group(2).strip(), c["pc"], ln, got, want))
+    return None
+
+
 def run_cpu(w, s, cpu, cfg, tier, rnd, known, survey, endian, part, nparts):
     pats = patterns_for(cpu, cfg, tier, rnd)
     pats = [p for i, p in enumerate(pats) if i % nparts == part]
-    regnames = ",".join(n for n, _ in cfg["regs"])
+    if cfg["unit"] >= 2:
+        mp = mnemonic_patterns(w, cpu, cfg, endian)
+        extra = [p for i, p in enumerate(mp) if i % nparts == part]
+        s.count("per_mnemonic_patterns.%s" % cpu, len(extra))
+        pats = extra * 2 + pats
+    regnames = ",".join(n for n, _ in cfg["regs"]) + (",pc" if cpu in PCLEN else "")
     fails = {}
     B = 250
     for bi in range(0, len(pats), B):
@@ -233,9 +300,34 @@ def run_cpu(w, s, cpu, cfg, tier, rnd, known, survey, endian, part, nparts):
                     if a["outside"] or bad:
                         probs.append(("outside_memory", "memory touched outside the %d byte address space at 0x%x" % (
                             space, a["first"] if a["outside"] else bad[0])))
+                pcm = pc_mismatch(cpu, c, a, s)
+                if pcm:
+                    probs.append(("pc_not_next_instruction", pcm))
                 if a["ret"] == 0 and (a["diffs"] or True):
                     s.nt((cpu, c["pattern"] >> (8 if cfg["unit"] == 1 and c["pattern"] > 0xff else 0)))
                 s.count("returned_%s.%s" % ("0" if a["ret"] == 0 else "nonzero", cpu))
+            if any(k == "nondeterministic" for k, _ in probs) and not survey and "culprit" not in fails:
+                # the same case alone may be deterministic: state left behind by an EARLIER step of this process (a
+                # static flag, say) is the usual cause.  Find a predecessor that changes the victim's result.
+                fails["culprit"] = None
+                try:
+                    def run_list(lst):
+                        rr = w.call({"cmd": "simbatch", "cpu": cpu, "cases": pack_cases(lst), "regs": regnames,
+                                     "space": str(cfg["space"]), "show": show, "steps": "1", "timeout": "5"})
+                        return parse_results(rr["results"], len(lst))
+                    alone = run_list([c, c])
+                    if alone[0]["raw"] == alone[1]["raw"]:
+                        seenp = set()
+                        for pj in cases:
+                            if pj["pattern"] in seenp:
+                                continue
+                            seenp.add(pj["pattern"])
+                            after = run_list([pj, c])
+                            if after[1]["raw"] != alone[0]["raw"] and after[0]["status"] == 0:
+                                fails["culprit"] = (pj, c)
+                                break
+                except (WorkerCrash, WorkerTimeout):
+                    pass
             for kind, detail in probs:
                 if survey:
                     fails.setdefault(kind, []).append((c, detail))
@@ -249,6 +341,22 @@ def run_cpu(w, s, cpu, cfg, tier, rnd, known, survey, endian, part, nparts):
         if len(s.samples) < 3 and cases:
             c = cases[0]
             s.sample(dict(cpu=cpu, pattern="0x%x" % c["pattern"], pc="0x%x" % c["pc"], regs=c["regs"][:4]))
+    culprit = fails.pop("culprit", None)
+    if culprit:
+        pj, vc = culprit
+        fid = known.match(cpu, "history_dependent", pj["pattern"])
+        if fid:
+            s.known_hits.setdefault(fid, dict(cpu=cpu, kind="history_dependent", pattern="0x%x" % pj["pattern"]))
+            s.excluded_known += 1
+        else:
+            s.violations.append(dict(engine="c15", cpu=cpu, kind="history_dependent", pattern=pj["pattern"],
+                                     detail="a step of pattern 0x%x changes what a LATER step of pattern 0x%x does in the same "
+                                            "process (state outside the simulator object survives)" % (pj["pattern"], vc["pattern"]),
+                                     pre=dict(pj, mem=[(a, list(bs)) for a, bs in pj["mem"]]),
+                                     case=dict(vc, mem=[(a, list(bs)) for a, bs in vc["mem"]]), count=1, patterns="0x%x" % pj["pattern"],
+                                     what="the same step from the same starting state gives a different result after another step "
+                                          "was executed earlier in the process"))
+        fails.pop("nondeterministic", None)
     for kind, lst in sorted(fails.items()):
         pts = sorted(set(c["pattern"] for c, _ in lst))
         if survey:
@@ -266,7 +374,9 @@ def run_cpu(w, s, cpu, cfg, tier, rnd, known, survey, endian, part, nparts):
                 what={"crash": "the simulator crashed during one step (sanitizer report or signal)",
                       "hang": "one step did not return", "exit": "one step terminated the process via exit()",
                       "nondeterministic": "the same step from the same state gave two different results",
-                      "outside_memory": "the step touched memory outside the simulated address space"}[kind]))
+                      "outside_memory": "the step touched memory outside the simulated address space",
+                      "pc_not_next_instruction": "after a non-branching instruction the program counter is not the address "
+                                                 "of the next disassembled instruction"}[kind]))
             if len(seen) >= 3:
                 break
 
@@ -311,7 +421,20 @@ def replay(payload):
         cpu = c["cpu"]
         cfg = CFG[cpu]
         case = dict(c, mem=[(a, bytes(bs)) for a, bs in c["mem"]], regs=[tuple(x) for x in c["regs"]], fill=tuple(c["fill"]))
-        regnames = ",".join(n for n, _ in cfg["regs"])
+        regnames = ",".join(n for n, _ in cfg["regs"]) + (",pc" if cpu in PCLEN else "")
+        if payload["kind"] == "history_dependent":
+            pc_ = payload["pre"]
+            pre = dict(pc_, mem=[(a, bytes(bs)) for a, bs in pc_["mem"]], regs=[tuple(x) for x in pc_["regs"]], fill=tuple(pc_["fill"]))
+            for show in ("1", "0"):
+                def run_list(lst):
+                    rr = w.call({"cmd": "simbatch", "cpu": cpu, "cases": pack_cases(lst), "regs": regnames,
+                                 "space": str(cfg["space"]), "show": show, "steps": "1", "timeout": "5"})
+                    return parse_results(rr["results"], len(lst))
+                alone = run_list([case])
+                after = run_list([pre, case])
+                if after[1]["raw"] != alone[0]["raw"]:
+                    return True, "the step gives a different result after the other step"
+            return False, "passes"
         for show in ("1", "0"):
             r = w.call({"cmd": "simbatch", "cpu": cpu, "cases": pack_cases([case, case]), "regs": regnames,
                         "space": str(cfg["space"]), "show": show, "steps": "1", "timeout": "5"})
@@ -327,6 +450,8 @@ def replay(payload):
                 return True, "differs"
             if kind == "outside_memory" and (a["outside"] or any(x >= cfg["space"] for x in a["diffs"])):
                 return True, "outside"
+            if kind == "pc_not_next_instruction" and pc_mismatch(cpu, case, a):
+                return True, pc_mismatch(cpu, case, a)
         return False, "passes"
     finally:
         w.close()
